@@ -1,6 +1,137 @@
-import Got.Model.Delayed
-/- property theorems of C10 (only theorems + non-vacuity examples live here) -/
-open Got.Model.Delayed
+import Got.Lemmas.Delayed
+/-
+C10 — taskx.SendDelayed: never early, less than one tick late, in deadline order, exactly once.
+
+All theorems are about Got.Model.Delayed (every finite list of actions = every multiset of requests, every
+interleaving of senders, loop, ticker, consumers and time).  `x ∈ s.forwarded` = request `x.1` was placed on its
+queue `x.1.queue` at instant `x.2`;  `x.1.trigger` = issue instant + d (the deadline),  `x.1.sent` = issue instant.
+`blockedEver = false` = time never passed while the loop was parked on a full target queue (the property's
+proviso "as long as the queues being targeted have room").
+Trusted: Go channel / select / Ticker semantics and maximal progress as encoded in the model's `step`.
+-/
+open Got.Model.Delayed Got.Model.DelayedHeap
 
 /-- the ticker period of the model is the source's literal: 1000 ms -/
 theorem C10_tick_period : tickNs = 1000000000 := by decide
+
+/-- The heap lemma for the transcription of container/heap (Less = triggerTime <): Push and Pop preserve the heap
+    invariant, the root is a minimal element, Push adds exactly the pushed element and Pop removes exactly the root. -/
+theorem C10_heap_lemma (h : Array Req) (hh : HeapN rkey h h.size) :
+    (∀ r, HeapN rkey (push less h r) (push less h r).size ∧ (push less h r).toList.Perm (h.toList ++ [r])) ∧
+    HeapN rkey (pop less h) (pop less h).size ∧
+    (∀ top, h[0]? = some top → (∀ r ∈ h.toList, top.trigger ≤ r.trigger) ∧ ((pop less h).toList ++ [top]).Perm h.toList) := by
+  refine ⟨fun r => ⟨?_, heap_push_perm h r⟩, ?_, fun top ht => ⟨heap_top_min h top ht hh, heap_pop_perm h top ht⟩⟩
+  · rw [push_size]; exact push_heap rkey less less_iff h r hh
+  · rw [pop_size]; exact pop_heap rkey less less_iff h hh
+
+/-- the priority queue of the loop is a heap in every reachable state -/
+theorem C10_heap_invariant (qcap : Nat → Nat) (acts : List Act) :
+    HeapN rkey (run qcap acts).heap (run qcap acts).heap.size := (invA_run qcap acts).heapOk
+
+/-- Never early (no proviso): a request is placed on its queue only at an instant ≥ its deadline. -/
+theorem C10_not_early (qcap : Nat → Nat) (acts : List Act) :
+    ∀ x ∈ (run qcap acts).forwarded, x.1.trigger ≤ (x.2 : Int) := fun x hx => ((invA_run qcap acts).fwdOk x hx).1
+
+/-- Less than one tick late.  While the loop was never blocked on a full target queue, a request is placed on its
+    queue at a tick instant `t` (a multiple of the period) that is less than one tick after max(deadline, issue
+    instant) — i.e. at the first tick ≥ both.  The only exception is the exact coincidence: a request issued exactly
+    at a tick instant whose deadline is already reached (d ≤ 0) may be processed after that tick's run and is then
+    placed exactly one tick later (`t = sent + tick`).
+    Requests that are still outstanding are never more than one tick past max(deadline, issue instant). -/
+theorem C10_lt_one_tick (qcap : Nat → Nat) (acts : List Act) (hroom : (run qcap acts).blockedEver = false) :
+    let s := run qcap acts
+    (∀ x ∈ s.forwarded, x.2 % tickNs = 0 ∧
+      ((x.2 : Int) < x.1.trigger + tickNs ∨ (x.2 : Int) < (x.1.sent : Int) + tickNs ∨
+       (x.2 = x.1.sent + tickNs ∧ x.1.sent % tickNs = 0 ∧ x.1.trigger ≤ (x.1.sent : Int)))) ∧
+    (∀ r ∈ outstanding s, (s.now : Int) < r.trigger + tickNs ∨ (s.now : Int) ≤ (r.sent : Int) + tickNs) := by
+  intro s
+  have hA := invA_run qcap acts
+  have hB := invB_run qcap acts hroom
+  exact ⟨fun x hx => hB.fwdLate x hx, outstanding_not_overdue hA hB⟩
+
+/-- hence, for a positive delay (or an issue instant that is not a tick instant): strictly less than one tick
+    after the deadline -/
+theorem C10_lt_one_tick_pos (qcap : Nat → Nat) (acts : List Act) (hroom : (run qcap acts).blockedEver = false) :
+    ∀ x ∈ (run qcap acts).forwarded, (x.1.sent : Int) ≤ x.1.trigger →
+      ((x.1.sent : Int) < x.1.trigger ∨ x.1.sent % tickNs ≠ 0) → (x.2 : Int) < x.1.trigger + tickNs := by
+  intro x hx hnn hpos
+  have := ((C10_lt_one_tick qcap acts hroom).1 x hx).2
+  rcases this with h | h | ⟨h1, h2, h3⟩
+  · exact h
+  · omega
+  · rcases hpos with hpos | hpos
+    · omega
+    · exact absurd h2 hpos
+
+/-- Exactly once: every request id ever issued (`a < nextId`) occurs exactly once among
+    parked senders ++ request channel ++ heap ++ the request being handed over ++ forwarded,
+    and no other id occurs; in particular no request is placed on a queue twice. -/
+theorem C10_once (qcap : Nat → Nat) (acts : List Act) :
+    (∀ a, idCount (run qcap acts) a = if a < (run qcap acts).nextId then 1 else 0) ∧
+    ((run qcap acts).forwarded.map (fun x => x.1.id)).Nodup := by
+  have hA := invA_run qcap acts
+  refine ⟨hA.ids, ?_⟩
+  rw [List.nodup_iff_count]
+  intro a
+  have h := hA.ids a
+  have e : List.count a ((run qcap acts).forwarded.map (fun x => x.1.id)) = cP a ((run qcap acts).forwarded.map (·.1)) := by
+    simp only [cP, List.count_eq_countP, List.countP_map]
+    congr 1
+  rw [e]
+  unfold idCount at h
+  split at h <;> omega
+
+/-- Deadline order.  With delays ≥ 0 and while the loop was never blocked, requests are placed on queues in
+    non-decreasing order of their deadlines — globally, hence on each target queue (across ticks and within a tick). -/
+theorem C10_deadline_order (qcap : Nat → Nat) (acts : List Act) (hnn : ∀ a ∈ acts, NonNeg a)
+    (hroom : (run qcap acts).blockedEver = false) :
+    (run qcap acts).forwarded.Pairwise (fun x y => x.1.trigger ≤ y.1.trigger) ∧
+    ∀ q, (((run qcap acts).forwarded.filter (fun x => x.1.queue = q)).map (fun x => x.1.trigger)).Pairwise (· ≤ ·) := by
+  have h := (invC_run qcap acts hnn hroom).sorted
+  refine ⟨h, fun q => ?_⟩
+  rw [List.pairwise_map]
+  exact h.filter _
+
+/-! non-vacuity: concrete runs (kernel-evaluated) -/
+
+/-- one request with d = 5 ns issued at 0: forwarded at the first tick, 1 s -/
+def C10_demo1 : List Act :=
+  [.sendDelayed 0 5, .enq 0, .pushReq, .delay 1000000000, .tickFire, .tickRecv, .tickTest, .forward, .tickTest]
+
+example : (run (fun _ => 4) C10_demo1).forwarded.map (fun x => (x.1.id, x.2)) = [(0, 1000000000)] := by decide +kernel
+example : (run (fun _ => 4) C10_demo1).blockedEver = false := by decide +kernel
+example : ∀ a ∈ C10_demo1, NonNeg a := by simp [C10_demo1, NonNeg]
+
+/-- three requests on one queue, deadlines 3, 1, 2 (ns): released in deadline order at the tick -/
+def C10_demo2 : List Act :=
+  [.sendDelayed 0 3, .sendDelayed 0 1, .sendDelayed 0 2, .enq 0, .enq 0, .enq 0, .pushReq, .pushReq, .pushReq,
+   .delay 1000000000, .tickFire, .tickRecv, .tickTest, .forward, .tickTest, .forward, .tickTest, .forward, .tickTest]
+
+example : (run (fun _ => 4) C10_demo2).forwarded.map (fun x => (x.1.trigger, x.2)) =
+    [(1, 1000000000), (2, 1000000000), (3, 1000000000)] := by decide +kernel
+example : (run (fun _ => 4) C10_demo2).blockedEver = false := by decide +kernel
+
+/-- the exact coincidence: a request with d = 0 issued exactly at the tick instant 1 s, after the tick was taken:
+    placed at 2 s = issue + one tick -/
+def C10_demo3 : List Act :=
+  [.delay 1000000000, .tickFire, .tickRecv, .sendDelayed 0 0, .enq 0, .tickTest, .pushReq,
+   .delay 1000000000, .tickFire, .tickRecv, .tickTest, .forward, .tickTest]
+
+example : (run (fun _ => 4) C10_demo3).forwarded.map (fun x => (x.1.sent, x.1.trigger, x.2)) =
+    [(1000000000, 1000000000, 2000000000)] := by decide +kernel
+example : (run (fun _ => 4) C10_demo3).blockedEver = false := by decide +kernel
+
+/-- … and the other order of the two simultaneous events: the request is pushed before the tick is taken and is
+    placed at once (1 s) -/
+def C10_demo4 : List Act :=
+  [.delay 1000000000, .tickFire, .sendDelayed 0 0, .enq 0, .pushReq, .tickRecv, .tickTest, .forward, .tickTest]
+
+example : (run (fun _ => 4) C10_demo4).forwarded.map (fun x => (x.1.sent, x.1.trigger, x.2)) =
+    [(1000000000, 1000000000, 1000000000)] := by decide +kernel
+
+/-- outside the proviso: a full target queue (capacity 1, nobody receives) blocks the loop -/
+def C10_demo5 : List Act :=
+  [.sendDelayed 0 1, .sendDelayed 0 2, .enq 0, .enq 0, .pushReq, .pushReq, .delay 1000000000, .tickFire, .tickRecv,
+   .tickTest, .forward, .tickTest, .delay 1000000000]
+
+example : (run (fun _ => 1) C10_demo5).blockedEver = true := by decide +kernel
